@@ -36,6 +36,10 @@ def tv(x):
 
 class Extension(Suite):
     name = "extension"
+    # the model side of this suite rests on Gen/Methods.lean and on theorems the property text does not state: a
+    # difference from the model is an INFO line and an evidence note (runner), never a verdict.  The property oracle
+    # (`oracle` below: validity / parse round trip of every message these functions emit) is a verdict as always.
+    supplementary = True
 
     def __init__(self):
         self.tables = None
@@ -237,6 +241,17 @@ class Extension(Suite):
         for v in (None, {"i": 1}, S("s")):
             add("parse", v=v)
 
+        # two instances alive at once, used alternately with equal names
+        for _ in range(40 if quick else 600):
+            regs = [[[cps(rng.choice(alpha)), t + 10 * i, False] for t in range(1, rng.randrange(1, 4))] for i in (0, 1)]
+            notes = [[rng.randrange(2), {"o": [[cps("method"), S(rng.choice(alpha))]]}] for _k in range(rng.randrange(2, 7))]
+            add("twins", kind="nh", regs=regs, notes=notes, defaults=rng.random() < 0.3)
+            steps = [[rng.randrange(2), rng.choice([["add", rng.choice(uris), None], ["remove", rng.choice(uris)], ["clear"]])] for _k in range(rng.randrange(2, 8))]
+            add("twins", kind="roots", steps=steps)
+        for _ in range(10 if quick else 100):
+            calls = [[rng.choice([1, 2]), rng.choice(refs[:2] + refs[5:6])] for _k in range(rng.randrange(2, 6))]
+            add("twins", kind="completion", calls=calls)
+
         # the remaining accessors / refusals of json_rpc_message.py
         req = {"o": [[cps("jsonrpc"), S("2.0")], [cps("id"), {"i": 1}], [cps("method"), S("m")]]}
         note = {"o": [[cps("jsonrpc"), S("2.0")], [cps("method"), S("m")], [cps("params"), NESTED]]}
@@ -260,7 +275,14 @@ class Extension(Suite):
 
     # -- implementation -------------------------------------------------------------------------------------
     def impl_batch(self, cases):
-        return [X.run_case(c) for c in cases]
+        out = []
+        for i, c in enumerate(cases):
+            if i % 3 == 0:  # a third of the cases as a host with logging at DEBUG
+                with R.debug_logging():
+                    out.append(X.run_case(c))
+            else:
+                out.append(X.run_case(c))
+        return out
 
     # -- model ------------------------------------------------------------------------------------------------
     def model_line(self, case, o=None):
@@ -479,20 +501,14 @@ class Extension(Suite):
         d = self.diff(case, o, m)
         x = case["x"]
         self.counts[x] = self.counts.get(x, 0) + 1
-        if d is None:
-            return None
-        if x in REAL:
-            return d
-        ent = self.info.setdefault(x, {"n": 0, "first": None})
-        ent["n"] += 1
-        if ent["first"] is None:
-            ent["first"] = f"{d}; case {core.canon(case)[:300]}"
-        return None
+        return None if d is None else f"{x}: {d}"
 
     # -- property oracle: every message these functions emit ---------------------------------------------------------
     def oracle(self, case, o):
         from . import c02
 
+        if case["x"] == "twins" and o.get("independent") is False:
+            return ("instances-interfere", f"two {case['args']['kind']} instances used alternately do not behave as each alone", {"independent": True})
         if (case["x"] not in REAL and case["x"] != "edge") or "emitted" not in o:
             return None
         fake = {"emitter": f"extension:{case['x']}:{case['args'].get('which') or case['args'].get('op') or case['args'].get('cls') or ''}", "args": {}}
